@@ -264,3 +264,19 @@ def run(ctx):
 
     from engine.fdvalid import state_pair
     state_pair(ctx, prog)
+
+    ctx.rule('RELEASE-UNCOND', 'in psf_close no release (free, psf_fclose, close hook call) is control dependent on an error value: what a hook or an earlier step returned must not decide whether '
+             'the descriptor is closed and the memory freed', floor=20)
+    pc = prog.fn('psf_close', 'sndfile.c')
+    nru = 0
+    for c in pc.calls():
+        cal = c.get('callee')
+        if cal not in ('free', 'psf_fclose', 'psf_close_rsrc') and cal:
+            continue
+        conds = [pc.s(a['cond']) for a in pc.ancestors(c) if a['k'] == 'IfStmt']
+        bad = [x for x in conds if 'error' in x]
+        nru += 1
+        ctx.ob('RELEASE-UNCOND', '%s#%d' % (cal or 'hook', nru), not bad, pc.loc(c), 'release `%s` %s' % (pc.s(c)[:50], 'depends only on the resource itself' if not bad else
+               'is skipped when `%s` is false: a non-zero hook result leaves the descriptor open / the memory allocated while sf_close frees the handle' % bad[0][:60]), None)
+    ctx.require(nru >= 20, 'only %d releases found in psf_close' % nru)
+
